@@ -202,3 +202,67 @@ func HarnessC15Cwd() {
 		verifCheckf(g == ".github/workflows/w.yml", "paths-glob-matched-against-cwd-relative-path", cwd+" "+arg+" -> "+g)
 	}
 }
+
+// ---- the filter is applied to every diagnostic of a file, whatever produced it ----
+
+var verifC15Src string
+
+func verifC15ReadSrc(name string) ([]byte, error) { return []byte(verifC15Src), nil }
+
+var verifC15PathsPattern string
+
+func verifC15RepoConfigPat(root string) (*Config, error) {
+	if root == "/r" && verifC15PathsPattern != "" {
+		return &Config{Paths: map[string]PathConfig{".github/workflows/*.yml": {Ignore: IgnorePatterns{regexp.MustCompile(verifC15PathsPattern)}}}}, nil
+	}
+	return nil, nil
+}
+
+// HarnessC15Check: Linter.LintFile end to end on a well-formed workflow with
+// one diagnostic and on text that is not YAML at all (the only diagnostic comes
+// from the YAML decoder); an ignore pattern given on the command line or in
+// the `paths` configuration; kept = not matched.
+func HarnessC15Check() {
+	srcs := []string{
+		"on: push\njobs:\n  a:\n    runs-on: ubuntu-latest\n    steps:\n      - run: echo ${{ unknown.x }}\n",
+		"on: [push\njobs: {\n",
+		"on: push\njobs:\n  a:\n    runs-on: ubuntu-latest\n    steps:\n      - run: echo\n      nope\n",
+	}
+	pats := []string{"undefined variable", "could not parse", "no such text"}
+	src := srcs[verifChoose("source", len(srcs))]
+	pat := pats[verifChoose("pattern", len(pats))]
+	viaConfig := verifChoose("via", 2) == 1
+	if verifIsNative() {
+		verifC15NativeCheck(src, pat, viaConfig)
+		return
+	}
+	verifSetCwd("/r")
+	verifC15Src = src
+	verifOverride("os.ReadFile", verifC15ReadSrc)
+	verifOverride("findProject", verifC15FindProject)
+	verifOverride("loadRepoConfig", verifC15RepoConfigPat)
+	verifC15PathsPattern = ""
+	l0 := &Linter{projects: NewProjects(), cwd: "/r", out: nil}
+	all, err := l0.LintFile(".github/workflows/w.yml", nil)
+	verifCheck(err == nil && len(all) >= 1, "lint-failed")
+	l := &Linter{projects: NewProjects(), cwd: "/r", out: nil}
+	if viaConfig {
+		verifC15PathsPattern = pat
+	} else {
+		l.ignorePats = []*regexp.Regexp{regexp.MustCompile(pat)}
+	}
+	errs, err := l.LintFile(".github/workflows/w.yml", nil)
+	verifCheck(err == nil, "lint-failed")
+	verifReach("linted")
+	re := regexp.MustCompile(pat)
+	want := 0
+	for _, e := range all {
+		if !re.MatchString(e.Message) {
+			want++
+		}
+	}
+	if want < len(all) {
+		verifReach("pattern-matches")
+	}
+	verifCheckf(len(errs) == want, "ignore-pattern-not-applied-to-every-diagnostic", pat)
+}
